@@ -42,7 +42,7 @@ static Built* build(bool ones){
     unsigned o = dims[d].order, nk = dims[d].knots.size();
     t.order[d] = o; t.nknots[d] = nk; t.naxes[d] = nk - o - 1;
     vr64* blk = new vr64[nk + 2 * o];
-    for (unsigned i = 0; i < o; i++) { char nm[48]; snprintf(nm, sizeof nm, "padlo_%u_%u", d, i); blk[i] = vs_var(nm); snprintf(nm, sizeof nm, "padhi_%u_%u", d, i); blk[o + nk + i] = vs_var(nm); }
+    for (unsigned i = 0; i < o; i++) { char nm[48]; snprintf(nm, sizeof nm, "padlo_%u_%u", d, i); blk[i] = vs_var_wild(nm); snprintf(nm, sizeof nm, "padhi_%u_%u", d, i); blk[o + nk + i] = vs_var_wild(nm); }
     std::map<std::string, vr64> seen; int rank = 0; std::string prev;
     for (unsigned i = 0; i < nk; i++) {
       vr64 h;
